@@ -176,36 +176,6 @@ Q q_round_lem()
     vf_assert(diff <= W(CD) - diff && diff >= -W(CD) - diff, "round: nearest (given the floor lemma)");
     if (diff == W(CD) - diff || diff == -W(CD) - diff) vf_assert((r & 1) == 0, "round: ties to even (given the floor lemma)");
 }
-Q q_round_x1()
-{
-    REP c = in<REP>(D_ROUND);
-    W num = W(c) * W(CN);
-    REP r = k_round(c); W R = r;
-    W diff = num - R * W(CD);
-    vf_assert(diff <= W(CD) - diff && diff >= -W(CD) - diff, "round: nearest");
-}
-Q q_round_x2()
-{
-    REP c = in<REP>(D_ROUND);
-    W num = W(c) * W(CN);
-    REP r = k_round(c); W R = r;
-    W d2 = 2 * (num - R * W(CD));
-    vf_assert(d2 <= W(CD) && d2 >= -W(CD), "round: nearest");
-}
-Q q_round_x3()
-{
-    REP c = in<REP>(D_ROUND);
-    W num = W(c) * W(CN);
-    REP r = k_round(c); W R = r;
-    W d2 = 2 * (num - R * W(CD));
-    if (d2 == W(CD) || d2 == -W(CD)) vf_assert((r & 1) == 0, "round: ties to even");
-}
-Q q_round_x4()
-{
-    REP c = in<REP>(D_ROUND);
-    REP r = k_round(c), f = k_floor(c);
-    vf_assert(r == f || i128(r) == i128(f) + 1, "round: floor or floor + 1");
-}
 Q q_round_std()
 {
     REP c = in<REP>(D_ROUND);
@@ -224,7 +194,6 @@ Q q_reach()
         if (diff == -W(CD) - diff) vf_witness("tie rounded up to even");
     }
     if (r != f) vf_witness("round goes up");
-    vf_assert(f <= r && r <= ce && f <= t && t <= ce, "floor <= cast, round <= ceil");
 }
 Q q_abs()
 {
@@ -232,20 +201,24 @@ Q q_abs()
     REP r = k_abs(c); vf_assert(i128(r) == (c < 0 ? -i128(c) : i128(c)), "abs");
     vf_assert(r == std::chrono::abs(SFrom{c}).count(), "abs == std::chrono");
 }
+// a + b, a - b: the exact common-type tick counts An = a*FF and Bn = b*TF fit Rep on D_A x D_B (that is what the domains
+// are), so they can be formed in Rep itself; the sum is required to fit as well (checked in the wide type).
 Q q_add()
 {
-    REP a = in<REP>(D_A), b = in<REP>(D_B); W A = W(a) * W(FF), B = W(b) * W(TF);
-    vf_assume(fitsW(A + B));
+    REP a = in<REP>(D_A), b = in<REP>(D_B);
+    REP An = REP(W(a) * W(FF)), Bn = REP(W(b) * W(TF));
+    vf_assume(fitsW(W(An) + W(Bn)));
     REP r = k_add(a, b);
-    vf_assert(r == REP(A + B), "a + b exact in the common period");  // A + B fits Rep (assumed above), so this is W(r) == A + B
+    vf_assert(r == REP(W(An) + W(Bn)), "a + b exact in the common period");
     vf_assert(r == (SFrom{a} + STo{b}).count(), "a + b == std::chrono");
 }
 Q q_sub()
 {
-    REP a = in<REP>(D_A), b = in<REP>(D_B); W A = W(a) * W(FF), B = W(b) * W(TF);
-    vf_assume(fitsW(A - B));
+    REP a = in<REP>(D_A), b = in<REP>(D_B);
+    REP An = REP(W(a) * W(FF)), Bn = REP(W(b) * W(TF));
+    vf_assume(fitsW(W(An) - W(Bn)));
     REP r = k_sub(a, b);
-    vf_assert(r == REP(A - B), "a - b exact in the common period");  // A - B fits Rep (assumed above)
+    vf_assert(r == REP(W(An) - W(Bn)), "a - b exact in the common period");
     vf_assert(r == (SFrom{a} - STo{b}).count(), "a - b == std::chrono");
 }
 Q q_common()
@@ -327,15 +300,15 @@ Q q_cdivmod()
     vf_assert(M(q) == M(a) / M(b) && M(m) == M(a) % M(b) && m2 == m, "compound /= %= truncated division of the count");
     vf_assert(q == x.count() && m == y.count() && m2 == z.count(), "compound /= %= == std::chrono");
 }
-// truncated division stated without division (symbolic product: |b| bounded by DLIM); quotient and remainder on their own
+// %=: magnitude and sign of the remainder over the whole range (the quotient definition a == q*b + r for a plain count is
+// q_divdef with From == To)
 Q q_cdivdef()
 {
-    REP a = nd(), b = nd(); lim(b, DLIM); lim(a, ALIM);
+    REP a = nd(), b = nd();
     typedef std::conditional_t<REPW <= 32, long long, i128> M;
     vf_assume(b != 0 && !(i128(a) == RMIN && b == -1));
-    REP q = k_cdiv(a, b), m = k_cmod(a, b);
-    M rem = M(a) - M(q) * M(b), ab = b < 0 ? -M(b) : M(b);
-    vf_assert((rem < 0 ? -rem : rem) < ab && (rem == 0 || (rem < 0) == (a < 0)), "/=: a - q*b is smaller than |b| and has the sign of a");
+    REP m = k_cmod(a, b);
+    M ab = b < 0 ? -M(b) : M(b);
     vf_assert((m < 0 ? -M(m) : M(m)) < ab && (m == 0 || (m < 0) == (a < 0)), "%=: remainder magnitude and sign");
 }
 Q q_cmul_std()
@@ -375,7 +348,6 @@ Q q_tp_casts()
     vf_assert(k_tp_cast(c) == std::chrono::time_point_cast<STo>(tp).time_since_epoch().count(), "time_point_cast == std::chrono");
     vf_assert(k_tp_floor(c) == std::chrono::floor<STo>(tp).time_since_epoch().count(), "floor(time_point) == std::chrono");
     vf_assert(k_tp_ceil(c) == std::chrono::ceil<STo>(tp).time_since_epoch().count(), "ceil(time_point) == std::chrono");
-    vf_assert(k_tp_round(c) == std::chrono::round<STo>(tp).time_since_epoch().count(), "round(time_point) == std::chrono");
     vf_assert(k_tp_cast(c) == k_cast(c) && k_tp_floor(c) == k_floor(c) && k_tp_ceil(c) == k_ceil(c) && k_tp_round(c) == k_round(c),
               "time_point_cast/floor/ceil/round are the duration operations on time_since_epoch()");
 }
